@@ -27,7 +27,10 @@ PROP = {
              "hou/hourly/Hour added to the epochs store), validator records with an unregistered consensus key (1 in 6), last total power above the "
              "sum of the records (1 in 10), epoch reward 0/20/1..10^30, jailing of an operator (1 in 10), opt-ins of "
              "operators into 2 further AVSs (asset sets {USDT}, {USDT,USDC}), deposits+delegations of USDT/USDC by 6 stakers to 5 operators through "
-             "the real assets/delegation keepers; block steps 10s/61s/1h/1d/1w so that 0-4 identifiers end in one block. One model step per "
+             "the real assets/delegation keepers; block steps 10s/61s/1h/1d/1w so that 0-4 identifiers end in one block. Parameter updates through the REAL exomint / feedistribution UpdateParams handlers (3 in 4 after "
+             "ValidateBasic, 1 in 8 with a wrong authority) with identifiers exact / with leading, trailing, surrounding blanks / capitalised / upper "
+             "case / a letter dropped or appended / empty / blank / unrelated, rewards incl. negative; the monitor follows the configured params "
+             "through the updates and evaluates each epoch end against them. One model step per "
              "observed epoch end (every distribution / mint epoch end and the first three no-op epoch ends per case go into the Coq case); distinct = distinct sha1 of the case; non-trivial = supply or distribution balance changed in some epoch end"),
     "explanation": ("Theorems (Coq) about an executable model of exomint AfterEpochEnd, feedistribution AfterEpochEnd / AllocateTokens / "
                     "AllocateTokensToValidator / AllocateTokensToStakers (as repaired by repo_patches/fix-c17-*.patch) and their hook order, for ALL "
@@ -41,6 +44,9 @@ PROP = {
                     "(C17_legacy_*_refuted) and is reported as VIOLATION by the monitor when the fix is reverted."),
     "trusted_base": KERNEL_TB + [
         "modelled, not verified: x/exomint/keeper/impl_epochs_hooks.go AfterEpochEnd, keeper.go MintCoins/AddCollectedFees; "
+        "x/exomint/keeper/msg_server.go UpdateParams, types/params.go OverrideIfRequired/Validate, types/msg.go ValidateBasic; "
+        "x/feedistribution/keeper/msg_update_params.go UpdateParams; x/epochs/types/identifier.go ValidateEpochIdentifierString, "
+        "x/epochs/keeper/epoch_infos.go GetEpochInfo (lookup by exact bytes); "
         "x/feedistribution/keeper/hooks.go AfterEpochEnd, allocation.go AllocateTokens/AllocateTokensToValidator/AllocateTokensToStakers/"
         "AllocateTokensToSingleStaker (hand-written Gallina transcription, tied by differential execution)",
         "the inputs of every epoch end (params, last total power, validator records, operator resolution, commission rate, the (staker, USD value) "
